@@ -78,7 +78,8 @@ def build(r):
     for i, k in enumerate(kinds):
         c = k0 + i
         if k in ('model-eq', 'model-eq-str'):
-            col = r.choice([x for x in ['p1', 'p2', 'p3', 'p4'] if x not in used_cols] or ['p5'])
+            # input columns; some are spelled as fragments of the models' target names ('y', 'target'): still inputs
+            col = r.choice([x for x in ['p1', 'p2', 'p3', 'p4', 'tar', 'get', 'arg', 'targe', 'Y1', 'yy'] if x not in used_cols] or ['p5'])
             used_cols.add(col)
             val = c if k == 'model-eq' else f's{c}'
             lit = str(c) if k == 'model-eq' else f"'s{c}'"
